@@ -307,7 +307,9 @@ def run(model, col, tier):
     uncond = [s for s in cft.body if isinstance(s, ast.Expr) and "append" in unparse(s) and "ReturnType" in unparse(s)]
     col.check(ok_void and not uncond, "R07.5", f"{GEN}::_ConvertFunctionType void result", "a void return type yields an empty result list",
               "the result list always receives the converted return type: for void that is a heap-type byte, which is not a value type (invalid signature)", GEN, cft)
-    args_ok = any(isinstance(n, ast.For) and "Arguments.values()" in unparse(n.iter) for n in ast.walk(cft))
+    from ..sem import iterations
+
+    args_ok = any("Arguments.values()" in unparse(it) and any("_ConvertType" in unparse(b) for b in body) for it, tgt, body, kind in iterations(cft))
     col.check(args_ok, "R07.5", f"{GEN}::_ConvertFunctionType parameters", "every parameter type is converted in order", None, GEN, cft)
     ctf = model.func(GEN, "_ConvertType")
     nonval = [unparse(r.value) for r in ast.walk(ctf) if isinstance(r, ast.Return) and r.value is not None and "ValueType." not in unparse(r.value) and "HeapType" not in unparse(r.value)]
